@@ -649,6 +649,28 @@ func ruleInclSibling(c *Ctx) []Obligation {
 		if len(modScope) == 0 && !walks {
 			continue
 		}
+		// the walk over the includes may sit in a function of its own that this one calls (a shared helper)
+		if !viaInclude {
+			eachInstr(fn, func(in ssa.Instruction) {
+				ci, isC := in.(ssa.CallInstruction)
+				if !isC {
+					return
+				}
+				w := ci.Common().StaticCallee()
+				if w == nil || w == fn || !c.isRepoFn(w) {
+					return
+				}
+				for _, wc := range c.callsTo(w, find) {
+					arg := wc.Common().Args[1]
+					if mi, ok := arg.(*ssa.MakeInterface); ok {
+						arg = mi.X
+					}
+					if namedOf(arg.Type()) == moduleT && derivesFrom(arg, func(x ssa.Value) bool { return isFieldRef(x, fInclude) }) {
+						viaInclude = true
+					}
+				}
+			})
+		}
 		con := fmt.Sprintf("%s: module-scope typedef lookup also consults included submodules", c.FnName(fn))
 		if viaInclude {
 			obs = append(obs, ok(R, con, c.Pos(fn.Pos()), "loops over Module.Include and looks the name up in each in.Module"))
